@@ -188,4 +188,6 @@ pub fn run(out: &mut Out, tier: &str, seed: u64) {
     out.notes.insert("reference".into(), json!("libsodium for 16-byte salts (and t >= 3 for Argon2i); the Coq model (validated on the RFC 9106 vectors) for the rest"));
     crate::objapi::pwhash(out, &mut rng, tier == "thorough");
     crate::consts::check(out, &["CRYPTO_PWHASH"]);
+    crate::objapi::pwhash_lengths(out, &mut rng);
+    crate::objapi::short_hash_records(out, &mut rng);
 }
